@@ -401,9 +401,10 @@ def _rand_label(rng):
     return rng.choice(["perp", "cWB", "tXY", "s36", "10BPh", "BPh", "0bph", "cww2", "", "nn", "cWWaa", "S35", "?"])
 
 
-def make_listing(rng):
+def make_listing(rng, long=False):
     lines = []
-    for _ in range(rng.randint(0, 25)):
+    # long: a listing in which well over a hundred lines cannot be parsed (another program's log lines mixed in)
+    for _ in range(rng.randint(0, 25) if not long else rng.randint(800, 1100)):
         r = rng.random()
         if r < 0.08:
             lines.append("# comment\tcWW\t" + _rand_unit(rng))
@@ -490,7 +491,7 @@ def run_case(case, rec):
             text = open(os.path.join(core.REPO, case["file"])).read()
         else:
             rng = random.Random(f"{os.environ.get('VERIF_SEED', '0')}:C19:l:{case['i']}")
-            text = make_listing(rng)
+            text = make_listing(rng, long=case["i"] % 23 == 7)
         want = ref_listing(text)
         rec.mark_nontrivial(any(w is not None and w[0] != "other" for w in want))
         # the tool's output file has one conventional name: every listing of this worker is written to the SAME path
